@@ -281,45 +281,72 @@ def rule_no_write_before_reject(ctx, rep: Report, rid="V5", min_entries=5):
 
 
 # ------------------------------------------------------------------------------------------
-def _guarded_rejections(fn) -> List[Tuple[ast.AST, str]]:
-    """(raise/assert node, guard text) pairs of a function."""
+def _guarded_rejections(fn) -> List[Tuple[ast.AST, str, List[str]]]:
+    """(raise/assert node, own condition text, outer guard texts) of a function.  For a raise the
+    own condition is the innermost enclosing guard; for an assert it is its test."""
     out = []
+
+    def loop_filters(n) -> List[str]:
+        """Enclosing loops whose iterable is not a plain name/attribute/accessor (a filtered or
+        conditional iterable restricts which elements are validated)."""
+        res = []
+        cur = parent(n)
+        while cur is not None and cur is not fn:
+            if isinstance(cur, ast.For):
+                it = cur.iter
+                plain = isinstance(it, (ast.Name, ast.Attribute)) or (
+                    isinstance(it, ast.Call) and isinstance(it.func, ast.Attribute) and not it.args
+                    and isinstance(it.func.value, (ast.Name, ast.Attribute)))
+                if not plain:
+                    res.append(f"loop over {unparse(it)[:50]}")
+            cur = parent(cur)
+        return res
+
     for n in walk_no_nested(fn):
         if isinstance(n, ast.Raise):
-            gs = guards_of(n, fn)
-            out.append((n, " && ".join(("" if pol else "not ") + f"({t})" for t, pol in gs)))
+            gs = [("" if pol else "not ") + f"({t})" for t, pol in guards_of(n, fn, include_exits=False)]
+            own = gs[-1] if gs else ""
+            out.append((n, own, gs[:-1] + loop_filters(n)))
         elif isinstance(n, ast.Assert):
-            out.append((n, "assert " + unparse(n.test)))
+            gs = [("" if pol else "not ") + f"({t})" for t, pol in guards_of(n, fn, include_exits=False)]
+            out.append((n, "assert " + unparse(n.test), gs + loop_filters(n)))
     return out
 
 
 def rule_validations_present(ctx, rep: Report, rid="V6"):
     prog = ctx.prog
+    no_outer = lambda gs: not gs      # noqa: E731
     specs = [
         ("constructor name equals class name", "Class", "__init__",
-         lambda g: ".name" in g and "!=" in g and g.count(".name") >= 2),
+         lambda g: ".name" in g and "!=" in g and g.count(".name") >= 2, no_outer),
         ("unary operator restricted to + and -", "Operator", "__init__",
-         lambda g: "is_unary" in g and "not in" in g and "'+'" in g and "'-'" in g),
+         lambda g: "is_unary" in g and "not in" in g and "'+'" in g and "'-'" in g, no_outer),
         ("operator takes at most one argument", "Operator", "__init__",
-         lambda g: g.startswith("assert") and "len(args)" in g and "<" in g),
+         lambda g: g.startswith("assert") and "len(args)" in g and "<" in g, no_outer),
         ("binary operator argument type equals return type", "Operator", "__init__",
-         lambda g: g.startswith("assert") and "typename.name" in g and "==" in g and "return_type" in g),
+         lambda g: g.startswith("assert") and "typename.name" in g and "==" in g and "return_type" in g,
+         lambda gs: len(gs) <= 1 and all("len(args) == 1" in x and "not in" in x and "'()'" in x for x in gs)),
         ("defaulted arguments only at the tail", "MatlabWrapper", "_expand_default_arguments",
-         lambda g: g.startswith("assert") and "default is None" in g and "all(" in g),
+         lambda g: g.startswith("assert") and "default is None" in g and "all(" in g, no_outer),
         ("template/instantiation counts agree", "InstantiatedClass", "__init__",
-         lambda g: g.startswith("assert") and "typenames" in g and "len(" in g and "instantiations" in g),
+         lambda g: g.startswith("assert") and "typenames" in g and "len(" in g and "instantiations" in g,
+         lambda gs: len(gs) <= 1 and all("template" in x for x in gs)),
     ]
-    for what, cls, meth, pred in specs:
+    for what, cls, meth, pred, outer_ok in specs:
         fn = prog.method(cls, meth)
         ci = prog.cls(cls)
-        hits = [(n, g) for n, g in _guarded_rejections(fn) if pred(g)]
-        # nested helper functions are part of the method
+        cands = list(_guarded_rejections(fn))
         for sub in ast.walk(fn):
             if isinstance(sub, ast.FunctionDef) and sub is not fn:
-                hits += [(n, g) for n, g in _guarded_rejections(sub) if pred(g)]
+                cands += _guarded_rejections(sub)
+        hits = [(n, g, gs) for n, g, gs in cands if pred(g)]
         rep.add(rid, f"validation:{cls}.{meth}:{what}", bool(hits),
                 f"no raise/assert enforcing '{what}' found in {cls}.{meth}: such input would be "
                 f"accepted and half-used", f"{ci.mod.rel}:{fn.lineno}")
+        for n, g, gs in hits:
+            rep.add(rid, f"validation:{cls}.{meth}:{what}:applies unconditionally", outer_ok(gs),
+                    f"the check runs only under the additional condition {gs}: inputs outside it are "
+                    f"accepted without validation", f"{ci.mod.rel}:{n.lineno}")
 
 
 # ==========================================================================================
@@ -724,3 +751,95 @@ def rule_read_sites(ctx, rep: Report, rid="R5", min_sites=4):
                     f"(path depends on {sorted(roots)})", f"{mi.rel}:{call.lineno}")
     if n < min_sites:
         raise AnalysisError(f"{rep.prop}/{rid}: {n} read sites found, {min_sites} expected")
+
+
+def _mutable_literal(v: ast.AST) -> bool:
+    if isinstance(v, (ast.Dict, ast.List, ast.Set, ast.ListComp, ast.DictComp, ast.SetComp)):
+        return True
+    if isinstance(v, ast.Call) and isinstance(v.func, ast.Name) and v.func.id in (
+            "dict", "list", "set", "defaultdict", "OrderedDict", "Counter", "deque"):
+        return True
+    if isinstance(v, ast.Call) and (dotted(v.func) or "").split(".")[-1] in ("defaultdict", "OrderedDict", "Counter", "deque"):
+        return True
+    return False
+
+
+def rule_no_shared_state(ctx, rep: Report, rid="R3", packages=("gtwrap/", "scripts/")):
+    """No class-level or module-level mutable container (or global) is mutated at run time:
+    such state outlives the wrapper object and leaks from one wrap call / file into the next."""
+    prog = ctx.prog
+    n = 0
+    for mi in sorted(prog.modules.values(), key=lambda m: m.rel):
+        if not mi.rel.startswith(packages):
+            continue
+        # module-level mutable names
+        mod_mut = {}
+        for st in mi.tree.body:
+            if isinstance(st, ast.Assign) and len(st.targets) == 1 and isinstance(st.targets[0], ast.Name) \
+                    and _mutable_literal(st.value):
+                mod_mut[st.targets[0].id] = st
+            elif isinstance(st, ast.AnnAssign) and isinstance(st.target, ast.Name) and st.value is not None \
+                    and _mutable_literal(st.value):
+                mod_mut[st.target.id] = st
+        for qual, ci in mi.classes.items():
+            cls_mut = {a: v for a, v in ci.attrs.items() if _mutable_literal(v)}
+            inst_assigned = set()
+            for c in prog.mro(ci):
+                init = c.methods.get("__init__")
+                if init is not None:
+                    for x in walk_no_nested(init):
+                        if isinstance(x, ast.Attribute) and isinstance(x.ctx, ast.Store) and \
+                                isinstance(x.value, ast.Name) and x.value.id == "self":
+                            inst_assigned.add(x.attr)
+            for attr in sorted(cls_mut):
+                n += 1
+                sites = []
+                for c2 in prog.classes.values():
+                    for k in c2:
+                        if not (prog.is_subclass(k, ci) or k is ci):
+                            continue
+                        for mname, fn in k.methods.items():
+                            for a, node, how in _self_mutations(fn):
+                                if a == attr and how != "assign" and attr not in inst_assigned:
+                                    sites.append((k.mod.rel, node.lineno, f"self.{attr} {how} in {k.qual}.{mname}"))
+                # Class.attr mutations anywhere
+                for m2 in prog.modules.values():
+                    for x in ast.walk(m2.tree):
+                        if isinstance(x, ast.Attribute) and x.attr == attr and prog.resolve_class(x.value, m2) is ci:
+                            p = parent(x)
+                            if isinstance(x.ctx, ast.Store) or (isinstance(p, ast.Attribute) and p.attr in MUTATORS) or \
+                                    (isinstance(p, ast.Subscript) and isinstance(p.ctx, (ast.Store, ast.Del))) or \
+                                    isinstance(p, ast.AugAssign):
+                                if enclosing(x, (ast.FunctionDef, ast.Lambda)) is not None:
+                                    sites.append((m2.rel, x.lineno, f"{ci.qual}.{attr} modified"))
+                rep.add(rid, f"shared-state:{ci.qual}.{attr}:class-level container never mutated at run time", not sites,
+                        "a class-level container is shared by every instance for the life of the process; "
+                        "mutating it makes the output depend on earlier wrap calls / files: " +
+                        "; ".join(f"{s[2]} @ {s[0]}:{s[1]}" for s in sites[:3]),
+                        f"{mi.rel}:{sites[0][1] if sites else cls_mut[attr].lineno}", nontrivial=bool(sites))
+        for name in sorted(mod_mut):
+            n += 1
+            sites = []
+            for fnname, fn in list(mi.functions.items()) + [(f"{q}.{m}", f) for q, c in mi.classes.items() for m, f in c.methods.items()]:
+                local = {a.arg for a in fn.args.args} | set(local_assignments(fn))
+                if name in local:
+                    continue
+                for x in walk_no_nested(fn):
+                    if isinstance(x, ast.Name) and x.id == name:
+                        p = parent(x)
+                        if (isinstance(p, ast.Attribute) and p.attr in MUTATORS) or \
+                                (isinstance(p, ast.Subscript) and isinstance(p.ctx, (ast.Store, ast.Del))) or \
+                                (isinstance(p, ast.AugAssign) and p.target is x):
+                            sites.append((mi.rel, x.lineno, f"{name} modified in {fnname}"))
+            rep.add(rid, f"shared-state:{mi.rel}:{name}:module-level container never mutated at run time", not sites,
+                    "module-level state outlives every wrapper object: " + "; ".join(f"{s[2]} @ {s[0]}:{s[1]}" for s in sites[:3]),
+                    f"{mi.rel}:{sites[0][1] if sites else mod_mut[name].lineno}", nontrivial=bool(sites))
+        globs = [x for x in ast.walk(mi.tree) if isinstance(x, (ast.Global,))]
+        decos = [d for f in ast.walk(mi.tree) if isinstance(f, (ast.FunctionDef,)) for d in f.decorator_list
+                 if (dotted(d.func if isinstance(d, ast.Call) else d) or "").split(".")[-1] in ("lru_cache", "cache", "cached_property")]
+        n += 1
+        rep.add(rid, f"shared-state:{mi.rel}:no `global` rebinding or process-wide memo decorators", not globs and not decos,
+                "process-wide state: " + ", ".join([f"global {','.join(g.names)}@{g.lineno}" for g in globs] +
+                                                    [f"@{unparse(d)}@{d.lineno}" for d in decos]),
+                f"{mi.rel}:{(globs + decos)[0].lineno if globs or decos else 0}", nontrivial=bool(globs or decos))
+    rep.units["shared_state_instances"] = n
